@@ -130,7 +130,7 @@ impl Default for GenOpts {
             pct_lazy_entrypoint: 15,
             pct_special_fields: 15,
             pct_empty_selection_set: 4,
-            pct_var_in_object: 20,
+            pct_var_in_object: 15,
             negative_ints: true,
             strings: Alphabet::Punct,
             random_options: true,
@@ -141,7 +141,7 @@ impl Default for GenOpts {
             loadable_with_nested_refetch: false,
             vars_to_client_fields_under_as: false,
             select_fields_with_cross_type_pointers: false,
-            pointer_variables: true,
+            pointer_variables: false,
             pointer_to_unfetchable: false,
         }
     }
